@@ -2,7 +2,20 @@
 C02 — Offsets are dense, increasing and never reused.
 -/
 import Klev.Proofs.Publish
+import Klev.Proofs.Reach
 namespace Klev.C02
+
+/-- **Never reused.** Along any history — deleting the newest messages, emptying the whole
+log, closing and reopening with any options included — the offsets assigned by Publish
+are strictly increasing in order of assignment (so no offset is assigned twice in the life
+of the directory) and never below the next offset of the starting state. -/
+theorem never_reused (l : Log) (hinv : Inv l) (ops : List Op) :
+    (assigned l ops).Pairwise (fun a b => a < b) ∧ ∀ x ∈ assigned l ops, (abs l).next ≤ x :=
+  Klev.assigned_increasing l hinv ops
+
+/-- `NextOffset` never moves backwards, whatever the step. -/
+theorem next_monotone (l : Log) (hinv : Inv l) (op : Op) : (abs l).next ≤ (abs (stepOp l op)).next :=
+  Klev.step_next_ge l hinv op
 
 /-- On every log state satisfying the invariant, with rollover at any size, for every batch
 (including the empty one): Publish returns `NextOffset + n`, the new live sequence is the
@@ -22,5 +35,7 @@ theorem live_below_next (l : Log) (hinv : Inv l) : ∀ m ∈ (abs l).live, 0 ≤
 
 end Klev.C02
 
+#print axioms Klev.C02.never_reused
+#print axioms Klev.C02.next_monotone
 #print axioms Klev.C02.publish_offsets
 #print axioms Klev.C02.live_below_next
